@@ -129,40 +129,37 @@ func tryTConfig(value reflect.Value) (reflect.Value, bool) {
 }
 
 func pointerize(t, base reflect.Type, v reflect.Value) reflect.Value {
-	if t == base {
+	if t == base || t == v.Type() {
 		return v
 	}
 
-	if t.Kind() == reflect.Interface {
+	if t.Kind() != reflect.Ptr {
+		// (interface types take the value as it is)
 		return v
 	}
 
-	for t != v.Type() {
-		if v.Kind() == reflect.Ptr && t.Kind() == reflect.Ptr && v.Type().ConvertibleTo(t) {
-			// t is a named pointer type (type P *T): taking addresses never
-			// gets there
-			return v.Convert(t)
+	// build the value t points to, then point to it
+	elem := pointerize(t.Elem(), base, v)
+	if elem.Type() != t.Elem() {
+		if elem.Kind() == reflect.Ptr && elem.Type().ConvertibleTo(t) {
+			// v is a pointer already and t a named pointer type (type P *T)
+			return elem.Convert(t)
 		}
-		if pointerDepth(v.Type()) >= pointerDepth(t) {
-			return v
-		}
-		if !v.CanAddr() {
-			tmp := reflect.New(v.Type())
-			tmp.Elem().Set(v)
-			v = tmp
-		} else {
-			v = v.Addr()
-		}
+		return elem
 	}
-	return v
-}
 
-func pointerDepth(t reflect.Type) int {
-	n := 0
-	for ; t.Kind() == reflect.Ptr; t = t.Elem() {
-		n++
+	var p reflect.Value
+	if elem.CanAddr() {
+		p = elem.Addr()
+	} else {
+		p = reflect.New(elem.Type())
+		p.Elem().Set(elem)
 	}
-	return n
+	if p.Type() != t {
+		// t is a named pointer type (type P *T)
+		p = p.Convert(t)
+	}
+	return p
 }
 
 func isInt(k reflect.Kind) bool {
